@@ -204,7 +204,148 @@ func c14Collisions(c *core.Ctx, rounds int, mix int) {
 	c.Count("terminator_collision_rounds", int64(rounds))
 }
 
+// c14MassConcurrent: n transactions expire in ONE Collect call; while that call is delivering (its handler has seen
+// `trigger` events), a second goroutine calls Close / Start / Stop / Collect and the handler waits for that call to
+// return. Whatever the interleaving, the outcome must be explainable by a sequential order. The handler has already
+// seen timeouts of this Collect when the second call is issued, so Collect cannot have come after a Close: it returns
+// nil and delivers a timeout for every expired transaction; the second call sees the table Collect left behind.
+func c14MassConcurrent(c *core.Ctx, r *gen.Rand) {
+	type tid = [stun.TransactionIDSize]byte
+	n := r.PickInt([]int{1, 50, 99, 100, 101, 150, 199, 200, 201, 250, 400, 1100})
+	m := r.Intn(4)
+	trigger := r.PickInt([]int{0, 1, n / 2, n - 1, 99, 100})
+	if trigger >= n {
+		trigger = n - 1
+	}
+	op2 := r.Intn(4)
+	t0, t1 := amEpoch, amEpoch.Add(time.Second)
+	var (
+		mu        sync.Mutex
+		timeouts  = map[tid]int{}
+		closedEv  = map[tid]int{}
+		otherEv   int
+		seen      int
+		collectG  int64
+		foreignTO int
+		a         *stun.Agent
+		op2Err    = "not-called"
+		stuck     bool
+	)
+	mkID := func(i int, g byte) tid {
+		var id tid
+		id[0], id[1], id[2] = byte(i), byte(i>>8), g
+
+		return id
+	}
+	release, finished := make(chan struct{}), make(chan struct{})
+	a = stun.NewAgent(func(e stun.Event) {
+		mu.Lock()
+		switch amEventClass(e) {
+		case evTimeout:
+			timeouts[e.TransactionID]++
+			if goid() != collectG {
+				foreignTO++
+			}
+		case evClosed:
+			closedEv[e.TransactionID]++
+		default:
+			otherEv++
+		}
+		k := seen
+		seen++
+		mu.Unlock()
+		if amEventClass(e) == evTimeout && k == trigger {
+			close(release)
+			select {
+			case <-finished:
+			case <-time.After(20 * time.Second):
+				stuck = true
+			}
+		}
+	})
+	for i := 0; i < n; i++ {
+		_ = a.Start(mkID(i, 'E'), t0)
+	}
+	for i := 0; i < m; i++ {
+		_ = a.Start(mkID(i, 'S'), t1.Add(time.Duration(i)*time.Second)) // survivors, the first with deadline == collect time
+	}
+	victim := mkID(r.Intn(n), 'E')
+	go func() {
+		<-release
+		var err error
+		switch op2 {
+		case 0:
+			err = a.Close()
+		case 1:
+			err = a.Start(victim, t1.Add(time.Hour))
+		case 2:
+			err = a.Stop(victim)
+		default:
+			err = a.Collect(t1)
+		}
+		mu.Lock()
+		op2Err = amErrClass(err)
+		mu.Unlock()
+		close(finished)
+	}()
+	collectG = goid()
+	cerr := a.Collect(t1)
+	c.Eval(1)
+	c.Count("calls", 2)
+	if stuck {
+		c.Violate("stuck", "stuck:call-during-mass-collect", map[string]interface{}{"expired": n, "second_call": []string{"Close", "Start(expired id)", "Stop(expired id)", "Collect"}[op2]})
+
+		return
+	}
+	<-finished
+	mu.Lock()
+	defer mu.Unlock()
+	wantOp2 := []string{"nil", "nil", "not-exists", "nil"}[op2]
+	problem := ""
+	switch {
+	case amErrClass(cerr) != "nil":
+		problem = "Collect returned " + amErrClass(cerr) + " although it had delivered timeouts"
+	case len(timeouts) != n || foreignTO != 0:
+		problem = fmt.Sprintf("%d of %d expired transactions got a timeout from this Collect (%d timeouts were delivered by another call)", len(timeouts)-foreignTO, n, foreignTO)
+	case op2Err != wantOp2:
+		problem = fmt.Sprintf("the second call returned %s; after a Collect that removed all %d expired transactions the specification says %s", op2Err, n, wantOp2)
+	case otherEv != 0:
+		problem = fmt.Sprintf("%d events that are neither timeout nor closed", otherEv)
+	}
+	for id, k := range timeouts {
+		if k != 1 || id[2] != 'E' {
+			problem = fmt.Sprintf("transaction %x: %d timeout events", id[:3], k)
+		}
+	}
+	wantClosed := 0
+	if op2 == 0 {
+		wantClosed = m
+	}
+	if len(closedEv) != wantClosed {
+		problem = fmt.Sprintf("%d closed events, %d transactions were registered when Close ran", len(closedEv), wantClosed)
+	}
+	for id, k := range closedEv {
+		if k != 1 || id[2] != 'S' {
+			problem = fmt.Sprintf("transaction %x: %d closed events", id[:3], k)
+		}
+	}
+	if problem != "" {
+		c.Violate("not-linearizable", "not-linearizable:call-during-mass-collect", map[string]interface{}{
+			"expired_in_one_collect": n, "survivors": m, "second_call": []string{"Close", "Start(expired id)", "Stop(expired id)", "Collect"}[op2],
+			"issued_after_timeout_event_number": trigger, "collect_returned": amErrClass(cerr), "second_call_returned": op2Err,
+			"timeouts_delivered": len(timeouts), "closed_events": len(closedEv), "problem": problem,
+		})
+
+		return
+	}
+	c.Count("events.timeout", int64(len(timeouts)))
+	c.Distinct(r.U64())
+}
+
 func c14(c *core.Ctx) {
+	c.Section("call-during-mass-collect", c.N(200, 20000), func(_ int64, r *gen.Rand) {
+		c14MassConcurrent(c, r)
+	})
 	c.Section("terminator-collisions", 8, func(i int64, _ *gen.Rand) {
 		c14Collisions(c, int(c.N(3000, 100000)), int(i))
 		c.Distinct(uint64(i) | 3<<50)
